@@ -10,7 +10,8 @@ AUDIT_IMPORTS = ["H5V.Props.C17"]
 THEOREMS = ["H5V.Props.C17." + t for t in [
     "C17_unescape_escape", "C17_escape_delimiters", "C17_text_roundtrip_partial", "C17_attr_roundtrip_partial",
     "C17_witness_cr", "C17_roundtrip_partial", "C17_witness_attr_prefix", "C17_witness_default_undeclared",
-    "C17_witness_sibling_leak", "C17_witness_item14", "C17_witness_uri_unescaped", "C17_fixed_examples"]]
+    "C17_witness_sibling_leak", "C17_witness_item14", "C17_witness_uri_unescaped", "C17_fixed_examples",
+    "C17_okEvs_fixed", "C17_roundtrip_fixed"]]
 TRUSTED = [
     "Lean 4 kernel; axioms ⊆ {propext, Classical.choice, Quot.sound} (audited per run)",
     "hand-written model lean/H5V/Model/XmlSer.lean of xml5ever/src/serialize/mod.rs + rcdom's Serialize impl, tied "
@@ -22,9 +23,12 @@ TRUSTED = [
     "lean/H5V/Model/XmlTB.lean (tree-builder model, see C16)",
 ]
 ASSUMPTIONS = [
-    "trees reachable by parsing are characterised by `Parsed` (lean/H5V/Props/C17.lean): names re-split to "
-    "themselves, one prefix ↦ one URI per tag, no declaration attributes, unprefixed attributes in no namespace, no "
-    "empty or adjacent text nodes, comment/PI/doctype content that lexes back to itself",
+    "trees reachable by parsing are characterised by document shape (misc* root misc*), `nodesOK` (no doctype / empty / "
+    "adjacent text inside elements) and `treesOK` (lean/H5V/Lemmas/XmlSerFixed.lean: names re-split to themselves, "
+    "xml/xmlns prefixes with their fixed URIs, no declaration attributes, unprefixed attributes in no namespace, "
+    "distinct attribute names and expanded names, one URI per prefix within a tag); that every tree the tree-builder "
+    "model produces satisfies them is argued from the C16 theorems and tested, not proved as one theorem; "
+    "comment / PI / doctype content is assumed to lex back to itself",
     "doctype public/system ids are outside the serializer API and ignored by the comparison",
 ]
 RULE = ("xmlser cases: (tree p) RcDom trees built node by node from structurally generated, parsed-by-construction "
@@ -37,8 +41,11 @@ RULE = ("xmlser cases: (tree p) RcDom trees built node by node from structurally
         "escaping-relevant characters up to length 3 (incl. CR, CRLF, quotes, & < >); cover-uri = namespace URIs with "
         "quote / & / < (compare on bytes only); random = seeded random documents. non-trivial = serialized text "
         "contains a tag; distinct = distinct (case, output)")
-EXPLANATION = ("the serializer model (namespace stack, declarations, escaping) is run against the tree-builder model; "
-               "theorems: escaping is reversible, the round trip holds on the stated sub-class, witnesses for every defect")
+EXPLANATION = ("model configuration SerCfg.current = fixed (= /repo since commits eeda1d4, 4808426), pre-fix behaviour kept "
+               "as SerCfg.code with decided witnesses; the serializer model (namespace stack, declarations, escaping) is run against the tree-builder model; "
+               "theorems: escaping is reversible; C17_roundtrip_fixed: the round trip holds for the fixed serializer on every "
+               "parsed-shape tree (C17_okEvs_fixed: every prefix of every tag is declared); C17_roundtrip_partial for any "
+               "configuration under the decidable check okEvs; witnesses for every pre-fix defect")
 
 U, V, W = "urn:u", "urn:v", "urn:w"
 
@@ -112,7 +119,9 @@ def to_source(spec):
 
 def doc_cases(doc, tag, cases, src=True):
     tree = [to_tree([], n) for n in doc]
-    cases.append(("xmlser\ttree\t%s\tp" % (X.dump_nodes(tree) or "-"), tag))
+    # the parser appends at most one doctype (/repo commit b61995b): a tree with two is not parser-produced
+    flag = "p" if sum(1 for n in doc if n[0] == "d") <= 1 else "n"
+    cases.append(("xmlser\ttree\t%s\t%s" % (X.dump_nodes(tree) or "-", flag), tag))
     if src:
         text = "".join(to_source(n) for n in doc).replace("\r", "&#13;")
         cases.append(("xmlser\tsrc\t%s" % X.hx(text), tag + "-src"))
